@@ -816,8 +816,9 @@ def run_pairs(spec):
             psites = []
             for op in ops:
                 hit = W.step(op)
-                if op.get("client") == 1:
-                    psites.extend(x for x in W.last_writes if x not in psites)
+                # every write site of this little history is a candidate (the victim's own
+                # evaluation may be what pollutes its next evaluation)
+                psites.extend(x for x in W.last_writes if x not in psites and x not in W.known)
                 if hit is not None:
                     break
             done += 1
